@@ -1,7 +1,7 @@
 """C01 — GDSII save/load round trip."""
 from checks.gdscommon import same, nontrivial, classify  # noqa
 CONFIG = {
-    "manifest": {'level_text': 'Gallina models of read_gds (full record switch with its mutable state) and of the GDSII writers on the database grid; proved so far: framing inverts record emission for every legal record, and the source-derived record-code obligation; the writer model is compared byte for byte with Library::write_gds and the reader model dump for dump with read_gds on every generated library, and the property itself (load(save L) = canon L, stable under further cycles) is decided on the implementation by an oracle whose expectation is built independently from the write plan.', 'level_note': 'The end-to-end theorem read_gds_model (write_gds_model L) = canon L is under construction (see DESIGN.md); until it lands the round trip is established per run, not for all libraries. Repetition expansion / AREF selection are computed by the harness (exact integer reasoning), not by the Coq model. Non-simple paths and vertex limits: C07/C08/C12.', 'technique': 'Coq models of GDSII reader and writer + byte-for-byte / dump-for-dump differential run + round-trip oracle'},
+    "manifest": {'level_text': "Coq theorem gds_roundtrip (closed under the global context): for EVERY well-formed library on the database grid (any number of cells, polygons of any length incl. multi-record XY, simple paths with every end type, references incl. AREF lattices with reflection / rotation, labels, GDSII properties) read_gds_model (write_gds_model L) = canon L, where the reader model mirrors the full record switch of read_gds with its mutable state and the writer model mirrors Library::write_gds / Cell::to_gds / the element writers / properties_to_gds; framing, field codecs (big-endian two's complement, byte swapping by data type), string padding, the closing vertex and property order are all inside the theorem. Both models are tied to /repo on every run: writer bytes compared byte for byte with Library::write_gds, reader dumps compared with read_gds, record codes regenerated from gdsii.hpp; and the property itself is decided on the implementation by a round-trip oracle (load(save L) = canon L, units kept, second cycle stable).", 'level_note': 'Repetition expansion and the AREF-or-SREFs decision are computed by the harness (exact integer reasoning over Repetition::get_offsets, covered by C11), not by the Coq writer model; MAG/ANGLE are carried as 8-byte real patterns (C19). canon reverses the property list order (the reader prepends). Non-simple paths and vertex limits are decided under C07/C08/C12.', 'technique': 'Coq round-trip theorem over Gallina models of the GDSII reader and writer + byte-for-byte / dump-for-dump differential run + round-trip oracle'},
     "prop_file": "Properties_C01",
     "extract_file": "Extract_Gds",
     "extracted": ["gds"],
